@@ -152,6 +152,7 @@ impl IndexRead {
             hunks: hunks.into_iter(),
             index: self,
             after: None,
+            errors: Vec::new(),
         })
     }
 }
@@ -164,6 +165,8 @@ pub struct IndexHunkIter {
     pub index: IndexRead,
     /// If set, yield only entries ordered after this apath.
     after: Option<Apath>,
+    /// Errors from hunks that could not be read or decoded and were skipped.
+    errors: Vec<Error>,
 }
 
 impl IndexHunkIter {
@@ -176,7 +179,10 @@ impl IndexHunkIter {
             let entries = match self.index.read_hunk(hunk_number).await {
                 Ok(None) => return None,
                 Ok(Some(entries)) => entries,
-                Err(_err) => {
+                Err(err) => {
+                    // Skip this hunk, but remember the error so that the caller can
+                    // report that entries are missing.
+                    self.errors.push(err);
                     continue;
                 }
             };
@@ -227,6 +233,16 @@ impl IndexHunkIter {
             entries.extend(hunk);
         }
         Ok(entries)
+    }
+
+    /// Take the errors from hunks that were skipped because they could not be read.
+    pub fn take_errors(&mut self) -> Vec<Error> {
+        std::mem::take(&mut self.errors)
+    }
+
+    /// The hunk numbers that have not yet been read.
+    pub(crate) fn remaining_hunk_numbers(&self) -> &[u32] {
+        self.hunks.as_slice()
     }
 
     /// Advance self so that it returns only entries with apaths ordered after `apath`.
